@@ -1,7 +1,7 @@
 (* C09 -- 4-index conversions, the diffpy lattice model, the nine space
    conversions of _transform_space, zone law, lengths, duality, cross
    products -- for EVERY lattice base accepted by diffpy. *)
-From Coq Require Import Reals ZArith Lra Nsatz Bool List Psatz.
+From Coq Require Import Reals ZArith Lra Lia Nsatz Bool List Psatz.
 From Verif Require Import Scalar RInst C09Lin C09Miller C09.
 From Verif Require Import C09LinAlg.
 Import ListNotations.
@@ -236,7 +236,7 @@ Proof.
     by (intros; rewrite <- mmul_assoc, Hrt, mmul_mid_l; reflexivity).
   destruct s1, s2, s3; cbn [conv_mat]; unfold gram, rgram;
     rewrite ?mmul_assoc;
-    repeat (rewrite ?c1, ?c2, ?c3, ?c4, ?Hl, ?Hr, ?Hlt, ?Hrt, ?mmul_mid_l, ?mmul_mid_r);
+    repeat (progress rewrite ?c1, ?c2, ?c3, ?c4, ?Hl, ?Hr, ?Hlt, ?Hrt, ?mmul_mid_l, ?mmul_mid_r);
     reflexivity.
 Qed.
 
@@ -353,9 +353,9 @@ Proof. intros; eapply zone_law; eauto. Qed.
 Lemma e_dot (i j : nat) : (i < 3)%nat -> (j < 3)%nat ->
   vdot ROps (e_ i) (e_ j) = if Nat.eqb i j then 1 else 0.
 Proof.
-  intros Hi Hj. destruct i as [|[|[|i]]]; destruct j as [|[|[|j]]]; simpl; lunfold; try ring;
-    exfalso; repeat (apply Nat.succ_lt_mono in Hi || apply Nat.succ_lt_mono in Hj);
-    try (inversion Hi); try (inversion Hj).
+  intros Hi Hj.
+  destruct i as [|[|[|i]]]; [| | |exfalso; lia];
+    (destruct j as [|[|[|j]]]; [| | |exfalso; lia]); cbn [e_ Nat.eqb]; lunfold; ring.
 Qed.
 
 (* |hkl B^T|^2 = hkl G* hkl^T   and   |uvw A|^2 = uvw G uvw^T *)
